@@ -12,6 +12,20 @@ Open Scope list_scope.
 Open Scope Z_scope.
 
 (* ------------------------------------------------------------------ shared small facts *)
+(* equalities between results that differ only in integer expressions: congruence on the
+   constructors (never on Z operations), then linear arithmetic *)
+Ltac congr_step :=
+  match goal with
+  | |- Ok _ = Ok _ => apply f_equal
+  | |- Some _ = Some _ => apply f_equal
+  | |- (_ :: _) = (_ :: _) => apply f_equal2
+  | |- (_, _) = (_, _) => apply f_equal2
+  | |- FInt _ = FInt _ => apply f_equal
+  | |- layout_tups ?e ?m _ ?l = layout_tups ?e ?m _ ?l => apply (f_equal (fun p => layout_tups e m p l))
+  | |- layout_raw ?e ?m _ ?l = layout_raw ?e ?m _ ?l => apply (f_equal (fun p => layout_raw e m p l))
+  end.
+Ltac congr_lia := repeat congr_step; try reflexivity; try lia.
+
 Lemma at_pos_app (pre x : list Z) : at_pos (pre ++ x) (zlen pre) = x.
 Proof.
   unfold at_pos, zlen. rewrite Nat2Z.id, skipn_app, skipn_all, Nat.sub_diag. reflexivity.
@@ -71,7 +85,7 @@ Proof.
         by (unfold all_ones; destruct (Z.eqb_spec (addr_bound asz - 1) 0); [lia | reflexivity]).
       rewrite IH by assumption.
       cbn [bind v4loc_tup]. rewrite !zlen_app, !zlen_int_encode.
-      repeat f_equal; lia.
+      unfold v4loc_meaning, v4rng_meaning. congr_lia.
     + (* location entry *)
       apply andb_prop in Hx. destruct Hx as [Hx Hbytes].
       apply andb_prop in Hx. destruct Hx as [Hx Hlen].
@@ -86,7 +100,7 @@ Proof.
       unfold zlen at 1. rewrite Nat2Z.id, take_app.
       rewrite IH by assumption.
       cbn [bind v4loc_tup]. rewrite !zlen_app, !zlen_int_encode.
-      repeat f_equal; lia.
+      unfold v4loc_meaning, v4rng_meaning. congr_lia.
 Qed.
 
 (* every entry occupies at least one byte: the fuel the model takes is enough *)
@@ -136,7 +150,7 @@ Proof.
         by (unfold all_ones; destruct (Z.eqb_spec (addr_bound asz - 1) 0); [lia | reflexivity]).
       rewrite IH by assumption.
       cbn [bind v4rng_tup]. rewrite !zlen_app, !zlen_int_encode.
-      repeat f_equal; lia.
+      unfold v4loc_meaning, v4rng_meaning. congr_lia.
     + apply andb_prop in Hx. destruct Hx as [Hx Hnmax].
       apply andb_prop in Hx. destruct Hx as [Hx Hnz].
       apply andb_prop in Hx. destruct Hx as [Hb He].
@@ -146,7 +160,7 @@ Proof.
       rewrite max_addr_all_ones. apply negb_true_iff in Hnmax. rewrite Hnmax.
       rewrite IH by assumption.
       cbn [bind v4rng_tup]. rewrite !zlen_app, !zlen_int_encode.
-      repeat f_equal; lia.
+      unfold v4loc_meaning, v4rng_meaning. congr_lia.
 Qed.
 
 Lemma v4rng_list_length le asz l : (0 < asz)%nat ->
